@@ -590,6 +590,8 @@ func main() {
 	e1()
 	e2()
 	e3()
+	e4()
+	res.Info["E4"] = "SSE streams with one data line of 64 KiB .. 5 MiB (around the 1 MiB line buffer) first or after one chunk, followed by more than a megabyte of ordinary stream, on the translated streaming route and the proxy route, both engines: the exchange ends within 20 s and the next request is served"
 	res.Info["grid"] = map[string]any{"E1_targets": "every shipped listing parser, metrics extraction of every profile that enables it, TransformResponse, one streaming chunk",
 		"E1_deviations": "delete / duplicate / replace by {null, {}, [], \"\", -1, 1e999, \"\\ud800\", 300 x '['} / truncate, up to 2 (second level restricted in quick tier)", "E1_token_strings": "length <=4 (5 thorough) over 12 tokens",
 		"E2_outcomes":        []string{"valid-L1", "valid-L2", "empty-body", "empty-object", "garbage", "nameless-entries", "duplicate-entries", "oversized(10MiB+)", "http-500", "stall"},
